@@ -61,7 +61,7 @@ def _fill_cases():
                            filltr, trcl, inline_filled, inline_filling, origin)
 
 
-@contract(CellConversion.pot_fill, props=['C05', 'C09', 'C13', 'C12'], name='CellConversion.pot_fill')
+@contract(CellConversion.pot_fill, props=['C05', 'C09', 'C13', 'C12', 'C06', 'C07'], name='CellConversion.pot_fill')
 class _PotFill:
     native = False
     hooks = {CellConversion.cell_transform: _transform_hook()}
